@@ -20,6 +20,7 @@ import Frp.Engines.Http
 import Frp.Engines.Peer
 import Frp.Engines.RegRace
 import Frp.Engines.Sess
+import Frp.Engines.Relog
 import Frp.Engines.Crash
 import Frp.Engines.Stack
 import Frp.Engines.E2e
@@ -57,6 +58,7 @@ def all : List (String × Engine) :=
   , ("peer", peer)
   , ("regrace", regrace)
   , ("sess", sess)
+  , ("relog", relog)
   , ("crash", crash)
   , ("stack", stack)
   , ("e2e", e2e)
